@@ -66,6 +66,7 @@ def run(ctx):
     v_, why_ = pitfalls.mod_reduced(fi_)
     ctx.ob('PITCHCLASS/reduced', fi_, fi_.node, v_ == pitfalls.OK, why_, construct='%s returns a pitch class in 0..11' % q, definite=(v_ == pitfalls.BAD),
            unknown=why_ if v_ == pitfalls.UNKNOWN else None)
+  quality_needs_all_degrees(ctx, 'CHORD/quality-needs-all-degrees')
   melody(ctx)
   chords(ctx)
   performance(ctx)
@@ -88,6 +89,38 @@ def _fold_env(ctx, mi, names):
 
 
 # ------------------------------------------------------------------ melody
+def quality_needs_all_degrees(ctx, rule):
+  """Location-independent: the chord encoders raise ChordEncodingError for every chord that is not a plain triad, and they decide
+  that with chord_symbol_quality: a chord that lacks its root, third or fifth has quality "other".  Reading a degree with a
+  numeric default (`degrees.get(5, 0)`) gives a *missing* degree the alteration of an unaltered one, so a fifthless chord is
+  encoded as if it were a full triad and does not come back from the decoder."""
+  fi = ctx.func('chord_symbols_lib:chord_symbol_quality')
+  fn = fi.node
+  cons = 'a chord without a root, third or fifth has no triad quality'
+  bad = [c for c in U.calls_in(fn) if isinstance(c.func, ast.Attribute) and c.func.attr == 'get' and len(c.args) == 2 and U.const_value(c.args[0]) in (1, 3, 5) and
+         U.const_value(c.args[1]) is not None]
+  if bad:
+    ctx.ob(rule, fi, bad[0], False, '%s reads degree %s with the default %s: a chord from which that degree was removed (no%s) is classified like a chord that has it unaltered, so the encoders '
+           'accept it as a triad and decode(encode(chord)) is a different chord' % (norm_text(bad[0]), U.const_value(bad[0].args[0]), U.const_value(bad[0].args[1]), U.const_value(bad[0].args[0])),
+           construct=cons, definite=True)
+    return
+  seen = set()
+  for n in ast.walk(fn):
+    if isinstance(n, ast.Compare) and len(n.ops) == 1 and isinstance(n.ops[0], (ast.In, ast.NotIn)) and U.const_value(n.left) in (1, 3, 5):
+      seen.add(U.const_value(n.left))
+    if isinstance(n, ast.Call) and isinstance(n.func, ast.Attribute) and n.func.attr == 'get' and len(n.args) == 1 and U.const_value(n.args[0]) in (1, 3, 5):
+      seen.add(U.const_value(n.args[0]))        # None for a missing degree: equal to no alteration
+    if isinstance(n, ast.Call) and dotted(n.func) in ('all', 'any'):
+      for x in ast.walk(n):
+        if isinstance(x, (ast.Tuple, ast.List, ast.Set)) and sorted(U.const_value(e) for e in x.elts if U.const_value(e) is not None) == [1, 3, 5]:
+          seen |= {1, 3, 5}
+  if seen == {1, 3, 5}:
+    ctx.ob(rule, fi, fn, True, 'the presence of degrees 1, 3 and 5 is tested', construct=cons)
+  else:
+    why = 'cannot classify: chord_symbol_quality tests the presence of degrees %s only' % sorted(seen)
+    ctx.ob(rule, fi, fn, False, why, construct=cons, unknown=why)
+
+
 def melody_scenarios(ctx, rule):
   """Location-independent, finite scenarios: MelodyOneHotEncoding maps the two special events to indices 0 and 1 and pitch p of
   [min_note, max_note) to p - min_note + 2, and decode_event is its inverse.  Both functions are read path by path
